@@ -102,11 +102,28 @@ func syntaxCase(in []byte) (msg string, accepted bool) {
 }
 
 var byteAlpha = []string{"a", "(", ")", ",", "[", "\"", "/", "\n", " ", "\r", "\\"}
+
 // lineAlpha: whole lines, so that block structures with comments in every position (after the opening
 // parenthesis, before and after the closing one, between lines) are reachable at small depth.
 var lineAlpha = []string{"a (\n", "a ( //c\n", "b\n", "b c //d\n", "//e\n", "\n", ")\n", ") //f\n", "a ()\n", "x (y) z\n", "\"q r\" s\r\n", "  //g  \n"}
 
 var atomAlpha = []string{"a", "b", "(", ")", "[", "]", ",", "\"s t\"", "`r`", "//c", "// d ", "\n", "\r\n", " ", "\t", "a//", "{", "}", "\x01", "\u00a0"}
+
+// SweepSlots are (prefix, suffix) pairs; the byte sweep puts every fill between them.
+var SweepSlots = [][2]string{
+	{"a ", " b\n"}, {"a", "b c\n"}, {"x \"s", "t\" y\n"}, {"x `r", "q` y\n"}, {"a b //c", "d\n"}, {"//c", "d\na b\n"},
+	{"a (\n\tb ", "\n)\n"}, {"a (\n\tb c //e", "\n)\n"}, {"a ( //f", "\n\tb\n)\n"}, {"a (\n\tb\n) //g", "\n"},
+	{"", "a b\n"}, {"a b\n", ""}, {"a b ", ""}, {"a b //c", ""}, {"a \"s\\", "t\" y\n"},
+}
+
+// SweepFills are all 256 byte values plus format verbs, multi-byte runes and line endings.
+func SweepFills() []string {
+	var fills []string
+	for b := 0; b < 256; b++ {
+		fills = append(fills, string([]byte{byte(b)}))
+	}
+	return append(fills, "%s", "%d", "%%", "%!", "%v%", "é", "\u212a", "\ufffd", "\u00a0", "\u2028", "\u3000", "\xe2\x82", "\r\n", "\n\n", "//", "/*", "*/")
+}
 
 // ---------------------------------------------------------------- directive layer
 
@@ -218,6 +235,34 @@ func Run(r *fw.Run) {
 		})
 	}
 	r.Sample(caseT{Layer: "syntax", Input: strconv.QuoteToASCII("a ( // d \n\"s t\" `r`\n)\r\n")})
+
+	// byte sweep: every byte value and a few other fills (format verbs, multi-byte runes, CRLF) in every
+	// kind of position of small files: between tokens, inside an identifier, a quoted and a raw string, a
+	// suffix and a whole-line comment, a block line, at the start and at the end of the file
+	{
+		l := fw.NewLocal()
+		r.Bounds["byte_sweep_slots"] = len(SweepSlots)
+		for _, sl := range SweepSlots {
+			for _, f := range SweepFills() {
+				b := []byte(sl[0] + f + sl[1])
+				l.States++
+				l.Transitions++
+				l.Execs++
+				msg, acc := syntaxCase(b)
+				if acc {
+					l.Nontrivial++
+					l.Outcomes["syntax-sweep:accepted"]++
+				} else {
+					l.Outcomes["syntax-sweep:rejected"]++
+				}
+				if msg != "" {
+					c := caseT{Layer: "syntax", Input: strconv.QuoteToASCII(string(b))}
+					r.Violation(c.key(), msg, c)
+				}
+			}
+		}
+		r.Merge(l)
+	}
 
 	// directive layer
 	type job struct {
